@@ -5,7 +5,6 @@ import (
 	"go/ast"
 	"go/token"
 	"go/types"
-	"strings"
 
 	"goblcheck/core"
 )
@@ -421,8 +420,7 @@ func c11SkipPattern(c *core.Ctx) {
 		if (fd.Obj.Name() != "Validate" && fd.Obj.Name() != "ValidateWithContext") || fd.Decl.Recv == nil {
 			continue
 		}
-		rel := core.RelPkg(fd.Obj.Pkg().Path())
-		if strings.HasPrefix(rel, "addons/") || strings.HasPrefix(rel, "regimes/") {
+		if p.IsTestFile(fd.Decl.Pos()) {
 			continue
 		}
 		recvT := core.RecvNamed(fd.Obj)
